@@ -453,6 +453,40 @@ class Env:
 LITS = {}   # per-unit denotation of particular literals (set by gen_unit)
 
 
+NCTX = "{K C R : Type} {NK : Num K} {NS : NormSig K C R}"
+NPRIMS = {"snp.sum": "n_sum", "snp.abs": "habs", "norm": "n_norm", "snp.linalg.norm": "n_norm", "count_nonzero": "n_count"}
+
+
+def _nc(out, cls, fields=None, prefix=""):
+    """__call__ of a norm class of scico/functional/_norm.py over the NormSig signature (C09)"""
+    d = dict(out=out, file=FN + "_norm.py", classes=[cls], context=NCTX, prims=NPRIMS,
+             imports=["From SV Require Import C09.GenSig."],
+             methods={"__call__": dict(params={"x": "C"}, kind="value", coqname="call")})
+    if fields:
+        d["fields"], d["prefix"] = fields, prefix
+    return d
+
+
+UNITS.update({
+    "N_L0": _nc("C09_L0", "L0Norm"), "N_L1": _nc("C09_L1", "L1Norm"), "N_SQL2": _nc("C09_SqL2", "SquaredL2Norm"),
+    "N_L2": _nc("C09_L2", "L2Norm"), "N_L1ML2": _nc("C09_L1mL2", "L1MinusL2Norm", fields=[("beta", "K")], prefix="lm"),
+})
+
+LCTX9 = "{K C R : Type} {NK : Num K} {NS : NormSig K C R} {LS : LossSig C R}"
+
+
+def _lc(out, cls, prefix):
+    """__call__ of a quadratic loss class of scico/loss.py (C09): self.W.diagonal is the record field Wd"""
+    return dict(out=out, file="scico/loss.py", classes=[cls], context=LCTX9, prims=NPRIMS, prefix=prefix,
+                imports=["From SV Require Import C09.GenSig."],
+                fields=[("scale", "K"), ("y", "C"), ("A", "C -> C")],
+                methods={"__call__": dict(params={"x": "C"}, kind="value", coqname="call", pre_params=[("wd", "R")],
+                                          attr_map={"self.W.diagonal": "wd"})})
+
+
+UNITS.update({"L_SQL2": _lc("C09_SqL2Loss", "SquaredL2Loss", "ql"), "L_SQL2ABS": _lc("C09_SqL2AbsLoss", "SquaredL2AbsLoss", "qa"),
+              "L_SQL2SQABS": _lc("C09_SqL2SqAbsLoss", "SquaredL2SquaredAbsLoss", "qs")})
+
 MCTX = "{K C R : Type} {NK : Num K} {MS : MetricSig K C R}"
 _mm = lambda ps, **kw: dict(params={p: ("K" if p == "signal_range" else "C") for p in ps}, kind="value", **kw)
 UNITS["METRIC"] = dict(
